@@ -327,19 +327,21 @@ def specs(tier, seed=0):
 # ---- to_dfs -----------------------------------------------------------------------------------------
 
 
-def run_large_case(export):
-    """a system whose one flow and one stock have more than 32767 entries (40 x 30 x 30; no dimension is long)"""
+def run_large_case(export, long_dim=False):
+    """a system whose one flow and one stock have more than 32767 entries (40 x 30 x 30; no dimension is long), or
+    (long_dim) whose Product dimension has 40000 items"""
     import flodym
     from flodym import Dimension, DimensionSet, FlodymArray
     from flodym import export as fx
 
-    case = dict(kind="large", export=export)
+    case = dict(kind="large", export=export, long_dim=long_dim)
+    shp = (3, 40000, 1) if long_dim else (40, 30, 30)
 
     def fail(what):
-        return "fail", dict(case=case, tags=dict(kind="large", export=export), what=f"system with a 40 x 30 x 30 flow and stock, export {export}: {what}")
+        return "fail", dict(case=case, tags=dict(kind="large", export=export), what=f"system with a {shp} flow and stock, export {export}: {what}")
 
-    ds = DimensionSet(dim_list=[Dimension(name="Time", letter="t", items=list(range(2000, 2040)), dtype=int), Dimension(name="Product", letter="p", items=[f"p{i}" for i in range(30)], dtype=str), Dimension(name="Quality", letter="q", items=[f"q{i}" for i in range(30)], dtype=str)])
-    v = np.arange(float(40 * 30 * 30)).reshape(40, 30, 30) * 0.25 + 1.0
+    ds = DimensionSet(dim_list=[Dimension(name="Time", letter="t", items=list(range(2000, 2000 + shp[0])), dtype=int), Dimension(name="Product", letter="p", items=[f"p{i}" for i in range(shp[1])], dtype=str), Dimension(name="Quality", letter="q", items=[f"q{i}" for i in range(shp[2])], dtype=str)])
+    v = np.arange(float(shp[0] * shp[1] * shp[2])).reshape(shp) * 0.25 + 1.0
     procs = flodym.make_processes(["sysenv", "use"])
     flow = flodym.Flow(from_process=procs["sysenv"], to_process=procs["use"], name="sysenv => use", dims=ds, values=v.copy())
     stock = flodym.SimpleFlowDrivenStock(dims=ds, name="in use", process=procs["use"], stock=flodym.StockArray(dims=ds, values=v.copy() + 0.125))
@@ -455,6 +457,7 @@ def run_unit(u):
     if u["kind"] == "large":
         for ex in ("pandas", "csv"):
             rec(*run_large_case(ex))
+        rec(*run_large_case("pandas", True))
         return res
     sp = list(specs(u["tier"], u.get("seed", 0)))[u["lo"] : u["hi"]]
     for spec in sp:
@@ -469,7 +472,7 @@ def replay(case):
     if case["kind"] == "to_dfs":
         oc, f = run_todfs_case(case["k"])
     elif case["kind"] == "large":
-        oc, f = run_large_case(case["export"])
+        oc, f = run_large_case(case["export"], case.get("long_dim", False))
     else:
         oc, f = run_case(case["spec"], case["export"])
     return [f] if f else []
